@@ -119,7 +119,7 @@ def rand_prog(rng, cap, maxops, abort=True, wait=True):
             ops.append(["abort", 0])
         else:
             ops.append(["flush", 0])
-    ops.append(["drop", 0])
+    ops.append(["drop", 1 if rng.random() < 0.25 else 0])     # 1: dropped during panic unwinding
     return ops
 
 
